@@ -100,6 +100,7 @@ pub fn gen_c01(rng: &mut Rng, caseid: u64, unix: bool, bound_ms: u64) -> (ConvCa
             as_reader_calls: 1,
             finish,
             pre_delay_us: if rng.chance(1, 2) { rng.range(0, 2000) as u64 } else { 0 },
+            zero_read_after: None,
         };
         kinds.push(match &plan.finish {
             Finish::Respond { declared: false, .. } => "chunked".to_string(),
@@ -202,6 +203,7 @@ pub fn gen_c06(rng: &mut Rng, caseid: u64, unix: bool, bound_ms: u64) -> (ConvCa
             as_reader_calls: 1,
             finish,
             pre_delay_us: if rng.chance(1, 2) { rng.range(0, 2000) as u64 } else { 0 },
+            zero_read_after: None,
         };
         kinds.push(format!("{}:{}:{}", bkind, plan.read_label(len), plan.finish_label()));
         p.push_valid(&a, &wire_body, designated, LenExp::Any, plan, "pipelined");
